@@ -292,7 +292,29 @@ def case_cf(draw):
                 spell=dict(pad=pad, sep=sep, tfmt=tfmt, suffix=suffix),
                 unit=unit, calendar=cal, dtype=dtype, values=vals,
                 bounds=bounds, edges=edges, clean=bool(clean),
-                rezone=draw(st.sampled_from([None, -360, 330, 540])))
+                rezone=draw(st.sampled_from([None, -360, 330, 540])),
+                datetype=draw(st.sampled_from(DATETYPES)),
+                rebase=draw(rebases()))
+
+
+# getTimes(datetype=...): python datetimes (None) or a numpy datetime64 unit
+DATETYPES = [None, None, None, 'datetime64[s]', 'datetime64[s]',
+             'datetime64[ms]', 'datetime64[us]', 'datetime64[m]']
+DT64_US = {'datetime64[s]': 10 ** 6, 'datetime64[ms]': 1000,
+           'datetime64[us]': 1, 'datetime64[m]': 60 * 10 ** 6}
+
+
+@st.composite
+def rebases(draw):
+    """second phase on the SAME file object: the units attribute of the time
+    variable is rewritten (other unit word and/or reference date moved by
+    whole days); None = single phase"""
+    if draw(st.integers(0, 2)) != 0:
+        return None
+    return dict(unit=draw(st.sampled_from(['days', 'hours', 'minutes',
+                                           'seconds', None])),
+                dayshift=draw(st.sampled_from([0, 1, -1, 59, 365, -366,
+                                               1461])))
 
 
 TSTEPS = [10000, 10000, 10000, 3000, 60000, 240000, 1000000, 500, 130, 15,
@@ -335,7 +357,8 @@ def case_ioapi(draw):
                 tstep=tstep, n=n, rows=rows,
                 bounds=draw(st.booleans()),
                 synth=draw(st.sampled_from([False, False, True])),
-                nvar=draw(st.integers(1, 3)))
+                nvar=draw(st.integers(1, 3)),
+                datetype=draw(st.sampled_from(DATETYPES)))
 
 
 @st.composite
@@ -353,7 +376,8 @@ def case_tau(draw):
         e = sorted(k / 8. for k in ks)
     return dict(kind='tau', tau0=e[:-1], tau1=e[1:],
                 bounds=draw(st.booleans()),
-                has_tau1=draw(st.sampled_from([True, True, False])))
+                has_tau1=draw(st.sampled_from([True, True, False])),
+                datetype=draw(st.sampled_from(DATETYPES)))
 
 
 def strategy(tier):
@@ -434,6 +458,40 @@ def cmp_instants(r, clause, got, want, what, klass='', tol_us=0):
                    (what, i, _fmt(g), _fmt(w)), klass=klass)
             return False
     return True
+
+
+EPOCH = dt.datetime(1970, 1, 1, tzinfo=UTC)
+
+
+def check_datetype(r, f, spec, good, bounds_flag, klass):
+    """getTimes(datetype=<numpy datetime64 unit>): numpy's datetime64 is
+    naive UTC, so each element must be the UTC instant of the (already
+    validated) datetime result floored to the unit"""
+    dtp = spec.get('datetype')
+    if not dtp:
+        return
+    with np.errstate(all='ignore'):
+        exc, arr = attempt(f.getTimes, datetype=dtp, bounds=bounds_flag)
+    if exc is not None:
+        r.label('datetype-raised:' + dtp)
+        return
+    r.label('datetype:' + dtp)
+    arr = np.asarray(arr)
+    if arr.dtype != np.dtype(dtp):
+        r.fail('datetype-dtype', 'getTimes(datetype=%r) returned dtype %s' %
+               (dtp, arr.dtype), klass=klass)
+        return
+    res = DT64_US[dtp]
+    want = [CT.us_between(EPOCH, _aware(g)) // res for g in _as_list(good)]
+    got = arr.astype('i8').ravel().tolist()
+    if got != want:
+        i = [a != b for a, b in zip(got, want)].index(True) \
+            if len(got) == len(want) else 0
+        r.fail('datetype-instant', 'getTimes(datetype=%r)[%d] = %s, but the '
+               'datetime result is %s (UTC %s)' % (
+                   dtp, i, arr.ravel()[i] if arr.size > i else arr,
+                   _fmt(_as_list(good)[i]),
+                   _fmt(_aware(_as_list(good)[i]))), klass=klass)
 
 
 # ------------------------------------------------------------------ CF cases
@@ -698,6 +756,9 @@ def check_cf(spec, r):
                        klass='%s/%s' % (fam, sub))
     if forward_ok and want is not None:
         r.label('forward-correct:' + fam)
+        check_datetype(r, f, spec, got, bounds != 'none',
+                       '%s/offset-%s' % (fam, 'zero' if spec['off'] == 0
+                                         else 'nonzero'))
     if True:
         # functional form (it has no bounds option: centres only)
         with np.errstate(all='ignore'):
@@ -969,6 +1030,7 @@ def check_ioapi(spec, r):
                       ('/tstep>=100h' if spec['tstep'] >= 1000000 else ''))
     if not ok:
         return
+    check_datetype(r, f, spec, got, bool(spec['bounds']), klass)
     if not spec['synth']:
         if form != 'sdate':
             with np.errstate(all='ignore'):
@@ -1089,8 +1151,11 @@ def check_tau(spec, r):
         r.label('getTimes-raised', 'raised:' + exc_where(exc))
         return
     r.label('getTimes-returned')
-    cmp_instants(r, 'tau-instant', got, alli, 'tau0 %r' % spec['tau0'][:3],
-                 klass='bounds' if spec['bounds'] else 'centres', tol_us=2)
+    if cmp_instants(r, 'tau-instant', got, alli,
+                    'tau0 %r' % spec['tau0'][:3],
+                    klass='bounds' if spec['bounds'] else 'centres',
+                    tol_us=2):
+        check_datetype(r, f, spec, got, bool(spec['bounds']), 'tau')
     with np.errstate(all='ignore'):
         exc, got2 = attempt(gettimes, f)
     if exc is None:
